@@ -64,6 +64,11 @@ type Prop struct {
 	// CrashSite: when non-nil a worker that dies is a violation of this property
 	// (clause "no-panic"); it maps the stderr of the dead worker to a site.
 	CrashIsViolation bool
+	// Parallel bounds how many worker processes run at once (default: number of CPUs).
+	Parallel int
+	// Procs, when non-zero, is GOMAXPROCS for each worker process (bubble-based
+	// checks run fastest with 1).
+	Procs int
 	// Budget is the internal deadline per tier.
 	Budget func(tier string) time.Duration
 }
@@ -195,10 +200,23 @@ func runWorkers(p *Prop, r *mc.Report, env *Env, n int, budget time.Duration) in
 	var wg sync.WaitGroup
 	var mu sync.Mutex
 	infra := false
+	par := cpus()
+	if p.Parallel > 0 {
+		par = p.Parallel
+	}
+	sem := make(chan struct{}, par) // n may exceed the cores: workers are short-lived tasks
 	for i := 0; i < n; i++ {
 		wg.Add(1)
 		go func(i int) {
 			defer wg.Done()
+			sem <- struct{}{}
+			defer func() { <-sem }()
+			if time.Now().After(env.Deadline) {
+				mu.Lock()
+				r.NotExhaustive("internal deadline reached before every task was started")
+				mu.Unlock()
+				return
+			}
 			skip := int64(0)
 			for attempt := 0; attempt < 200; attempt++ {
 				outp := filepath.Join(tmp, fmt.Sprintf("w%d.json", i))
@@ -207,6 +225,9 @@ func runWorkers(p *Prop, r *mc.Report, env *Env, n int, budget time.Duration) in
 				args := []string{"-prop", p.ID, "-tier", env.Tier, "-worker", fmt.Sprintf("%d/%d", i, n), "-out", outp, "-skip-upto", strconv.FormatInt(skip, 10)}
 				cmd := exec.Command(exe, args...)
 				cmd.Env = append(os.Environ(), "VERIF_DIR="+env.VerifDir, fmt.Sprintf("VERIF_BUDGET_S=%d", int(time.Until(env.Deadline).Seconds())+1))
+				if p.Procs > 0 {
+					cmd.Env = append(cmd.Env, fmt.Sprintf("GOMAXPROCS=%d", p.Procs))
+				}
 				var stderr bytes.Buffer
 				cmd.Stderr = &tailWriter{buf: &stderr, max: 1 << 20}
 				cmd.Stdout = os.Stdout
